@@ -173,6 +173,33 @@ def _check_axes(fr, n, m, asc, V, tag=''):
     for j in sorted(set([0, n // 2, n - 1])):
         if int(fr.get_index(fr.get_frequency(j))) != j:
             V('roundtrip_scalar', 'scalar round trip fails at %d' % j)
+    # unit-carrying frequencies (array and scalar): the same channels
+    from astropy import units as _u
+    # (astropy arithmetic is slow: a quarter of the frames, chosen by their sizes)
+    for name, q in ((('Hz', fs * _u.Hz), ('kHz', (fs / 1e3) * _u.kHz), ('MHz', (fs / 1e6) * _u.MHz), ('GHz', (fs / 1e9) * _u.GHz))
+                    if (n + m) % 4 == 0 else ()):
+        try:
+            gq = np.asarray(fr.get_index(q))
+            gs = int(fr.get_index(q[n // 2]))
+        except Exception as e:
+            V('get_index_quantity', 'get_index(frequencies in %s) raised %s: %s' % (name, type(e).__name__, e))
+            break
+        if not np.array_equal(gq, i) or gs != n // 2:
+            V('get_index_quantity', 'get_index of the channel frequencies given in %s returns %s... (scalar for channel %d: %d)'
+              % (name, gq[:4].tolist(), n // 2, gs))
+            break
+    # what the derived-quantity accessors hand out is the caller's to scribble on: the frame's own axes stay what they were
+    try:
+        te2 = fr.ts_ext
+        if isinstance(te2, np.ndarray) and te2.flags.writeable:
+            te2 += 12345.0
+        gf2 = fr.get_frequency(i)
+        if isinstance(gf2, np.ndarray) and gf2.flags.writeable:
+            gf2 -= 777.0
+    except Exception:
+        pass
+    if not (np.array_equal(np.asarray(fr.ts), ts) and np.array_equal(np.asarray(fr.fs), fs) and np.array_equal(np.asarray(fr.ts_ext)[:m], ts)):
+        V('returned_array_aliases_axes', 'writing into the arrays returned by ts_ext / get_frequency changed the frame\'s own ts / fs / ts_ext')
     # nearest channel: offsets strictly inside / outside the half-channel (ties are not decided, rule 1)
     for delta, shift in ((0.25, 0), (-0.25, 0), (0.49, 0), (-0.49, 0), (0.51, 1), (-0.51, -1)):
         f = (ref + LD(delta) * LD(df)).astype(float)
